@@ -36,6 +36,13 @@ fn num(rng: &mut Rng) -> Value {
             0 | 1 => f(-0.0),
             2 => f(0.0),
             3 => json!(0),
+            4 | 5 => {
+                // integers near the ends of the 64-bit ranges (sums and averages leave i64 / u64)
+                CLOSE_USED.with(|c| c.set(true));
+                [json!(4611686018427387904i64), json!(9223372036854775807i64), json!(-9223372036854775808i64), json!(18446744073709551615u64), json!(-4611686018427387905i64),
+                 json!(9007199254740993i64)][rng.below(6)]
+                    .clone()
+            }
             k => {
                 CLOSE_USED.with(|c| c.set(true));
                 f([1e308, 9e307, -1e308, 1.7e308][k - 4])
@@ -293,8 +300,22 @@ fn gen_args(name: &str, rng: &mut Rng) -> Vec<A> {
             _ => vec![A::V(obj(rng))],
         },
         "map" => {
-            let e = ["&k", "&@", "&id", "&o", "&[id, k]", "&{x: k}", "&nope", "&k == `1`"][rng.below(8)];
-            { let kk = rng.below(4); vec![A::E(e), A::V(records(rng, kk))] }
+            let e = [
+                "&k", "&@", "&id", "&o", "&[id, k]", "&{x: k}", "&nope", "&k == `1`", "&k.type(@)", "&k | type(@)", "&nope.to_array(@)", "&o.not_null(@, `0`)", "&k[0].type(@)", "&type(@)",
+                "&to_string(k)", "&k || `\"d\"`", "&!k", "&[k][0] | type(@)",
+            ][rng.below(18)];
+            let kk = rng.below(4);
+            let mut recs = records(rng, kk);
+            // elements that are not objects (null, numbers, strings, arrays) among the records
+            if rng.chance(1, 2) {
+                if let Value::Array(a) = &mut recs {
+                    for _ in 0..rng.below(4) {
+                        let at = rng.below(a.len() + 1);
+                        a.insert(at, [json!(null), json!(7), json!("s"), json!([1]), json!(true), json!({})][rng.below(6)].clone());
+                    }
+                }
+            }
+            vec![A::E(e), A::V(recs)]
         }
         "max" | "min" | "sort" => {
             let mut xs: Vec<Value> = match rng.below(5) {
